@@ -20,6 +20,8 @@ import GrinVerif.Model.DecSer
     codec run <ver> <[frag,frag,…]>      => [ev;ev;…;end:<E>:<bytes_read>[:<maxreq>]]   (C19, real `Codec`)
     codec hs accept|initiate <genesis> <stream> => ok <version> | err <E>              (C19, real `Handshake`)
     codec hs self                        => err PeerWithSelf
+    codec hs other                       => ok <version>   (another node - a different `Handshake`, so a nonce that
+                                          is not in our ring - behind the same address pair as a self connection)
     codec timed <ver> <[ms:frag,ms:frag,…]> => [ev;…;pongs:<n>;closed:<0|1>]   (C19, real `conn::listen` reader thread:
                                           fragments written after real pauses of `ms` milliseconds; model = `runT`)
     codec peer <ver> <now> <[ms:frag,…]> => [ev;…;pongs:<n>;closed:<0|1>]   (C19, a real `Peer::accept` after a real
@@ -551,6 +553,11 @@ def handle (st : St) (args : List String) (impl : String) : St × Verdict :=
     let h : Hand := { version := 1000, capabilities := 0, nonce := 42, genesis := [1], totalDifficulty := 0,
                       senderAddr := .v4 [0, 0, 0, 0] 0, receiverAddr := .v4 [0, 0, 0, 0] 0, userAgent := [] }
     (st, cmpSpec (showHs (acceptDecision [1] LOCAL_PROTOCOL_VERSION (pushNonce [] 42) false h)) impl)
+  | ["hs", "other"] =>
+    -- the verdict depends on the nonce ring only: the same `Hand`, but the ring is another node's
+    let h : Hand := { version := 1000, capabilities := 0, nonce := 42, genesis := [1], totalDifficulty := 0,
+                      senderAddr := .v4 [127, 0, 0, 1] 0, receiverAddr := .v4 [127, 0, 0, 2] 0, userAgent := [] }
+    (st, cmpSpec (showHs (acceptDecision [1] LOCAL_PROTOCOL_VERSION (pushNonce [] 43) false h)) impl)
   | ["hs", "accept", g, stream] =>
     match parseHex g, parseHex stream with
     | some g, some bs =>
